@@ -397,7 +397,76 @@ func (c *Ctx) ruleExtendedMessageTypes() {
 	if pk == nil {
 		return
 	}
+	// Evaluated on the SSA form for each message type 1..5, so that a switch, an ==/|| chain or a helper taking the
+	// type as a parameter all read the same: is a block that selects the extended maximum reachable when the
+	// message type is t?
+	constOf := func(name string) int64 {
+		if k, ok := pk.Types.Scope().Lookup(name).(*types.Const); ok {
+			v, _ := constInt(k.Val())
+			return v
+		}
+		return -1
+	}
+	ext := constOf("BGP_MAX_EXTENDED_MESSAGE_LENGTH")
+	names := map[int64]string{}
+	for _, n := range []string{"BGP_MSG_OPEN", "BGP_MSG_UPDATE", "BGP_MSG_NOTIFICATION", "BGP_MSG_KEEPALIVE", "BGP_MSG_ROUTE_REFRESH"} {
+		names[constOf(n)] = n
+	}
 	want := map[string]bool{"BGP_MSG_UPDATE": true, "BGP_MSG_NOTIFICATION": true, "BGP_MSG_ROUTE_REFRESH": true}
+	isExt := func(v ssa.Value) bool {
+		k, ok := stripConv(v).(*ssa.Const)
+		if !ok || k.Value == nil {
+			return false
+		}
+		kv, ok := constInt(k.Value)
+		return ok && kv == ext
+	}
+	// blocks of f that select the extended maximum (phi edges count for the predecessor they come from)
+	selects := func(f *ssa.Function) []*ssa.BasicBlock {
+		var out []*ssa.BasicBlock
+		for _, b := range f.Blocks {
+			for _, in := range b.Instrs {
+				switch x := in.(type) {
+				case *ssa.Phi:
+					for i, e := range x.Edges {
+						if isExt(e) {
+							out = append(out, b.Preds[i])
+						}
+					}
+				case *ssa.Store:
+					if isExt(x.Val) {
+						out = append(out, b)
+					}
+				case *ssa.Return:
+					for _, rv := range x.Results {
+						if isExt(rv) {
+							out = append(out, b)
+						}
+					}
+				}
+			}
+		}
+		return out
+	}
+	// does f compare a uint8 value with a message-type constant at all?
+	typeTests := func(f *ssa.Function) bool {
+		for _, b := range f.Blocks {
+			for _, in := range b.Instrs {
+				if bo, ok := in.(*ssa.BinOp); ok && (bo.Op == token.EQL || bo.Op == token.NEQ) {
+					for _, pr := range [][2]ssa.Value{{bo.X, bo.Y}, {bo.Y, bo.X}} {
+						if k, ok := stripConv(pr[1]).(*ssa.Const); ok && k.Value != nil {
+							if kv, ok := constInt(k.Value); ok && names[kv] != "" {
+								if bt, ok := pr[0].Type().Underlying().(*types.Basic); ok && bt.Kind() == types.Uint8 {
+									return true
+								}
+							}
+						}
+					}
+				}
+			}
+		}
+		return false
+	}
 	found := 0
 	for _, key := range []string{"(*pkg/server.fsmHandler).recvMessageWithError", "(*pkg/packet/bgp.BGPMessage).Serialize"} {
 		fn := c.P.Func(key)
@@ -405,23 +474,46 @@ func (c *Ctx) ruleExtendedMessageTypes() {
 			r.Undec(rule, key, "anchor", "-", "not found")
 			continue
 		}
-		// the switch whose case body assigns the extended maximum
-		info := c.infoFor(fn)
-		body := funcBody(fn)
-		if info == nil || body == nil {
-			continue
-		}
-		for _, sw := range switchesOn(body, info, func(t types.Type) bool {
-			b, ok := t.Underlying().(*types.Basic)
-			return ok && b.Kind() == types.Uint8
-		}) {
-			if !mentionsConst(sw.Stmt, info, "BGP_MAX_EXTENDED_MESSAGE_LENGTH") {
+		family := c.withHelpers(fn, 2)
+		for _, f := range family {
+			targets := selects(f)
+			if len(targets) == 0 {
+				continue
+			}
+			if !typeTests(f) {
+				// the maximum is selected by a helper that does not look at the type: judge its call sites
 				continue
 			}
 			found++
 			got := map[string]bool{}
-			for k := range sw.Cases {
-				got[k] = true
+			for t, name := range names {
+				tt := t
+				val := func(v ssa.Value) (bool, bool) {
+					bo, ok := v.(*ssa.BinOp)
+					if !ok || (bo.Op != token.EQL && bo.Op != token.NEQ) {
+						return false, false
+					}
+					for _, pr := range [][2]ssa.Value{{bo.X, bo.Y}, {bo.Y, bo.X}} {
+						k, ok := stripConv(pr[1]).(*ssa.Const)
+						if !ok || k.Value == nil {
+							continue
+						}
+						kv, ok := constInt(k.Value)
+						if !ok || names[kv] == "" {
+							continue
+						}
+						if bt, ok := pr[0].Type().Underlying().(*types.Basic); !ok || bt.Kind() != types.Uint8 {
+							continue
+						}
+						return (kv == tt) == (bo.Op == token.EQL), true
+					}
+					return false, false
+				}
+				for _, tg := range targets {
+					if reachBool(f, val, tg) {
+						got[name] = true
+					}
+				}
 			}
 			var ks []string
 			for k := range got {
@@ -435,14 +527,14 @@ func (c *Ctx) ruleExtendedMessageTypes() {
 				}
 			}
 			if same {
-				r.Ok(rule, key, "extended types", c.P.Pos(sw.Stmt.Pos()), strings.Join(ks, ", "))
+				r.Ok(rule, key, "extended types", c.P.Pos(f.Pos()), strings.Join(ks, ", "))
 			} else {
-				r.Bad(rule, key, "extended types", c.P.Pos(sw.Stmt.Pos()), "the types allowed to exceed 4096 octets are "+strings.Join(ks, ", ")+": receiver and serialiser must both allow exactly UPDATE, NOTIFICATION, ROUTE-REFRESH")
+				r.Bad(rule, key, "extended types", c.P.Pos(f.Pos()), "the types allowed to exceed 4096 octets are "+strings.Join(ks, ", ")+": receiver and serialiser must both allow exactly UPDATE, NOTIFICATION, ROUTE-REFRESH")
 			}
 		}
 	}
 	if found != 2 {
-		r.Undec(rule, "-", "anchor:two type switches", "-", fmt.Sprintf("found %d switches selecting the extended maximum", found))
+		r.Undec(rule, "-", "anchor:two type selections", "-", fmt.Sprintf("found %d places selecting the extended maximum by message type", found))
 	}
 }
 
